@@ -140,6 +140,12 @@ func exec(o *vrt.Obs, s scen, tag string) {
 	o.Evals++
 	w := b2fx.BaseWorld(tag, false)
 	w.Plan.Challenge = s.challenge
+	// one handshake in four: the remote issues its challenge before its SID line (nothing ties ;PQ to a place
+	// among the remote's handshake lines; a challenge that was issued must be answered)
+	if (len(s.challenge)+len(s.primary)+len(s.aux))%4 == 0 {
+		w.Plan.PQFirst = true
+		o.Count("challenges_issued_before_the_sid_line", 1)
+	}
 	w.Plan.ExpectLocator = "JO29PJ"
 	for _, a := range s.aux {
 		w.Aux = append(w.Aux, a.addr)
